@@ -101,7 +101,7 @@ func init() {
 		Rule: "three kinds of cases: (1) histories of 1-120 Enqueue/Dequeue/Peek/Size ops on container.Queue[int] with unique values against a slice, biased to fill, shift and grow the ring buffer; (2) histories of Push/PushAll/Pop/Peek/Size/Clear on container.Stack[int]; (3) token streams of the real lexer over a generated, deeply indented script and its stream faults (every truncation offset, every byte deletion, sampled mutations): DEDENT never exceeds INDENT, both are equal at EOF, one EOF ends the stream, no nil token; non-trivial = queue history with >=1 growth / stack depth >=4 / token stream with >=2 INDENTs; distinct by hash of the history or bytes"})
 	register(&Property{ID: "C09", Level: "exploration", World: c09World, Replay: func(p *Plan) *Violation { return c09Exec(p, nil) },
 		Worlds: map[string]int{"quick": 1200, "thorough": 3000}, Batch: map[string]int{"quick": 1, "thorough": 8},
-		Rule: "worlds = generated program using dice/random/random_range in lines, conditions, sets and option conditions x seed string over [0-9a-z]{1,20} x host schedule of 3-24 steps; each world is executed 6+ times in-process (plain, repeated, after 1-3 unrelated seeded runners, after 1-50 draws from the global math/rand and math/rand/v2 sources, under a clock moved by up to 10^6 s inside a bubble, with a neighbour runner stepped during its callbacks) and, in the procs mode, in fresh child processes with GOMAXPROCS 1/4/16 and GOGC 100/25/off; canonical traces (elements, error texts, variables after every op) must be byte-identical and every rendered random value must lie in its range; non-trivial = >=2 random values rendered; distinct by hash of the trace"})
+		Rule: "worlds = generated program using dice/random/random_range in lines, conditions, sets and option conditions x seed string over [0-9a-z]{1,20} x host schedule of 3-24 steps; each world is executed 7+ times in-process (plain, repeated, after 1-3 unrelated seeded runners, after 1-50 draws from the global math/rand and math/rand/v2 sources, under a clock moved by up to 10^6 s inside a bubble, with a neighbour runner stepped during its callbacks, with a new seeded runner created and stepped between any two of its steps; 30 % of the schedules take a snapshot and restore it once or twice) and, in the procs mode, in fresh child processes with GOMAXPROCS 1/4/16 and GOGC 100/25/off; canonical traces (elements, error texts, variables after every op) must be byte-identical and every rendered random value must lie in its range; non-trivial = >=2 random values rendered; distinct by hash of the trace"})
 	register(&Property{ID: "C18", Level: "exploration", World: c18World, Replay: func(p *Plan) *Violation { return c18Exec(p, nil) },
 		Worlds: map[string]int{"quick": 900, "thorough": 3000}, Batch: map[string]int{"quick": 1, "thorough": 12},
 		Rule: "deterministic part: worlds = 2-4 runners over 1-2 generated programs (random built-ins, markup, commands, variables, counters), each with its own dynamic op list (steps, host writes, releases, snapshot/restore); one total order interleaves their creations and steps, and every n-th host callback (storer read, host function, command handler entry) of the running runner executes a burst of 1-3 steps of another runner in the middle of the call; each runner's full trace (elements, variables, side effects, snapshots) must equal its solo trace; non-trivial = >=1 mid-call burst; distinct by hash of the plan. Stress part (race mode, -race binary, real scheduler, fresh processes with cold parser caches): 4-16 goroutines create and drive the runners concurrently from the first instruction; no race report, every trace equals the sequential one"})
